@@ -6,6 +6,10 @@ report a solution exactly when a rule-obeying grid exists, and every answer cell
 value common to all rule-obeying grids (None when they disagree).  Instances where a
 "don't-care" candidate (a corner on which published rule sets differ) would matter are skipped
 and counted.
+
+Second layer (puzzles/large.py): boards of 16-50 cells that cannot be enumerated.  The rule checker
+alone is the oracle: models of the posted program must obey the rules, an independently planted
+(or checker-validated) grid must not be lost, and no cell may be decided against such a grid.
 """
 
 import importlib
@@ -20,6 +24,13 @@ ALL_PUZZLES = ["sudoku", "slitherlink", "masyu", "yajilin", "nurikabe", "heyawak
                "star_battle", "fillomino", "nurimisaki", "yinyang", "creek", "gokigen", "aquarium", "building",
                "doppelblock", "putteria", "simpleloop", "geradeweg", "compass", "fivecells", "view", "castle_wall",
                "shakashaka"]
+
+
+# (shards, cases per shard) of the large-board layer; cases cost 0.1 - 4 s each (7 solver calls)
+LARGE_QUICK = {"fillomino": (1, 6), "fivecells": (1, 5), "sudoku": (1, 5), "nurikabe": (1, 6), "view": (1, 6),
+               "norinori": (1, 30), "putteria": (1, 30), "lits": (1, 30), "aquarium": (1, 30), "akari": (2, 25),
+               "simpleloop": (1, 15), "masyu": (1, 14), "shakashaka": (1, 10), "creek": (1, 10), "heyawake": (1, 10)}
+LARGE_THOROUGH = {"fillomino": (8, 20), "fivecells": (8, 20), "sudoku": (8, 25)}
 
 
 def load_specs():
@@ -84,6 +95,73 @@ def shard(arg):
     return st
 
 
+def shard_large(arg):
+    """second layer (puzzles/large.py): boards of 16..49 cells, rule checker as the only oracle"""
+    from puzzles import large
+
+    name, seed, n, thorough = arg
+    ls = large.large_specs()[name]
+    st = Stats()
+
+    def b(case):
+        try:
+            out = large.run_large(ls, case)
+        except Failure as f:
+            if getattr(f, "derived", None) is not None:
+                case["derived"] = f.derived
+            st.case(canon=case, nontrivial=True, classes=["failed", "large:" + name])
+            raise
+        cl = {"large", "large:" + name}
+        known = False
+        for ph in ("phase_a", "phase_b"):
+            r = out[ph]
+            if r is None:
+                continue
+            if r["valid"]:
+                known = True
+                cl.add("large:%s:rule-obeying-grid-known" % name)
+            if r["sat"] and not r["valid"]:
+                cl.add("large:%s:only-dont-care-models" % name)
+            if r["decided"]:
+                cl.add("large:%s:decided-cells" % name)
+        cl = sorted(cl)
+        if case["planted"] is not None:
+            cl.append("large:%s:planted" % name)
+        if out["phase_b"] is not None:
+            cl.append("large:%s:clues-derived-from-a-checked-model" % name)
+        inst = case["inst"]
+        h, w = dims(inst)
+        if h != w:
+            cl.append("large:%s:non-square" % name)
+        st.case(canon=case, nontrivial=known, classes=cl,
+                sample=dict(puzzle=name, layer="large", inst=inst) if known and len(json.dumps(inst)) < 500 else None)
+
+    # model-mode cases cost seconds each: no shrinking in the quick tier (the unshrunk case replays as well)
+    hyp_search(st, large.case_strategy(ls), b, seed=seed, max_examples=n, check="c11.large." + name,
+               shrink=thorough, rounds=2)
+    return st
+
+
+def shard_selftest(arg):
+    """the large layer's rule checkers against the small layer's enumerators (harness self-check)"""
+    from hypothesis import HealthCheck, given, seed, settings
+    from puzzles import large
+
+    name, sd, n = arg
+    spec = load_specs()[name]
+    ls = large.large_specs()[name]
+    tot = [0]
+
+    @seed(sd)
+    @settings(max_examples=n, deadline=None, database=None, suppress_health_check=list(HealthCheck))
+    @given(instance_strategy(spec, min(spec.max_cells_quick, 12)))
+    def t(case):
+        tot[0] += large.selftest(ls, spec, case["inst"])
+
+    t()
+    return name, tot[0]
+
+
 def run(ctx):
     specs = load_specs()
     missing = [p for p in ALL_PUZZLES if p not in specs]
@@ -93,11 +171,16 @@ def run(ctx):
         "multi-solution and UNSAT instances all occur; clues on the border and zero clues included), decided "
         "exhaustively by an independent candidate enumerator + rule checker; compared with solve_<puzzle>'s "
         "is_sat and every answer cell. non-trivial = instance not skipped for a don't-care candidate; "
-        "distinct by case hash. Puzzles covered: %s. Not covered yet: %s"
+        "distinct by case hash. Second layer, boards of 16-50 cells (classes large:*): independently planted or "
+        "checker-validated grids with derived clues; the first 3 models of the posted program must obey the rules, "
+        "a planted grid must not be lost, no decided cell may contradict a rule-obeying grid; non-trivial = a "
+        "rule-obeying grid of the instance is known. Puzzles covered: %s. Not covered yet: %s"
         % (", ".join(sorted(specs)), ", ".join(missing) or "none"))
     ctx.assumptions = [
         "the 'published rules' are the transcription in DESIGN.md Appendix A; ambiguous corners are don't-care",
         "default backend of the working tree (z3 offline)",
+        "large boards: the rule checker is the only oracle; for puzzles without an independent construction the "
+        "planted grid is a model of the solver under test that the checker accepted (one-directional)",
     ]
     ctx.stats.extra["puzzles_covered"] = sorted(specs)
     ctx.stats.extra["puzzles_not_covered"] = missing
@@ -108,9 +191,25 @@ def run(ctx):
         k = (getattr(specs[name], "quick_shards", 2) if quick else 6)
         for i in range(k):
             jobs.append((name, ctx.seed * 1000 + i, n, not quick))
+    from puzzles import large
+
+    lspecs = large.large_specs()
+    ljobs = []
+    for name in sorted(lspecs):
+        k, ln = (LARGE_QUICK.get(name, (1, 6)) if quick else LARGE_THOROUGH.get(name, (8, 40)))
+        for i in range(k):
+            ljobs.append((name, ctx.seed * 1000 + 500 + i, ln, not quick))
+    # checker self-test first: a checker that disagrees with the enumerator is a harness error (exit 2)
+    grids = dict(pmap(shard_selftest, [(name, ctx.seed, 6 if quick else 40) for name in sorted(lspecs)]))
+    ctx.stats.extra["large_layer_checker_selftest_grids"] = grids
     for r in pmap(shard, jobs):
         ctx.stats.merge(r)
+    for r in pmap(shard_large, ljobs):
+        ctx.stats.merge(r)
     cl = ctx.stats.classes
+    for name in sorted(lspecs):
+        ctx.floor(name + ": large boards with a known rule-obeying grid",
+                  cl["large:%s:rule-obeying-grid-known" % name], 1)
     for name in sorted(specs):
         tot = max(1, cl["puzzle:" + name])
         ctx.floor(name + ": instances", cl["puzzle:" + name], 8)
@@ -120,5 +219,10 @@ def run(ctx):
 
 def replay(ctx, rep):
     case = rep["case"]
+    if case.get("layer") == "large":
+        from puzzles import large
+
+        large.run_large(large.large_specs()[case["puzzle"]], case)
+        return
     spec = load_specs()[case["puzzle"]]
     base.run_instance(spec, case["inst"])
